@@ -87,7 +87,20 @@ def run(ctx):
         ('<%def name="f()">(${caller.body()})</%def>\\\n% for i in range(2):\n<%call expr="f()">${i}</%call>\\\n% endfor\n', "(0)(1)", "calls-in-loop"),
         ('<%def name="f()">(${caller.body()})</%def><%def name="h()"><%call expr="f()">x${caller.body()}</%call></%def><%call expr="h()">y</%call>', "(xy)", "call-from-def"),
         ('<%def name="f()">(${caller.body()}${inner()}${caller.body()})</%def><%def name="inner()">i</%def><%call expr="f()">b</%call>', "(bib)", "caller-after-inner-call"),
+        # the defs written inside an inner call belong to that call only: the outer call's caller keeps its own def of that name
+        ('<%def name="f()">{${caller.g()}${caller.body()}}</%def><%def name="h()">(${caller.g()}${caller.body()})</%def>'
+         '<%call expr="f()"><%def name="g()">outer-g</%def>a<%call expr="h()"><%def name="g()">inner-g</%def>b</%call>c</%call>', "{outer-ga(inner-gb)c}", "nested-call-defs-stay-with-their-call"),
+        ('<%def name="f()">${hasattr(caller, "only_inner")}|${caller.body()}</%def><%def name="h()">${caller.only_inner()}</%def>'
+         '<%call expr="f()"><%call expr="h()"><%def name="only_inner()">I</%def></%call></%call>', "False|I", "inner-call-def-not-exported"),
+        # the callee of a call with content gets its caller also when its arguments ran another call with content
+        ('<%def name="f(a)">f(${a})[${caller.body() if caller else "no caller"}]</%def><%def name="h()">h[${caller.body()}]</%def>'
+         '<%def name="g()"><%call expr="f(capture(caller.body))">FB</%call></%def><%call expr="g()"><%call expr="h()">x</%call></%call>', "f(h[x])[FB]", "caller-kept-across-argument-calls"),
+        # names read by a decorator, a keyword-only default, and a default of a call body's arguments come from the calling scope
+        ('<%def name="o()"><%def name="zd()" decorator="ctxdeco">x</%def>${zd()}</%def>${o()}', "DECO", "decorator-from-context"),
+        ('<%def name="o()"><%def name="zd(*, b=brk)">${b("k")}</%def>${zd()}</%def>${o()}', "[k]", "kwonly-default-from-context"),
+        ('<%def name="f()">${caller.body()}</%def><%call expr="f()" args="a=up">${a("k")}</%call>', "K", "call-args-default-from-context"),
     ]
+    H = dict(H, ctxdeco=lambda fn: (lambda *a_, **k_: "DECO"))
     for src, want, tag in cases:
         ctx.evaluations += 1
         try:
